@@ -118,7 +118,7 @@ func modelSortSlice(f *Frame, st *State, r *Term, fn *ssa.Function, args []Val, 
 			}
 		}
 	}
-	f.frameCheckCall(r, shortKey(funcKey(fn)), []modLoc{{comp: f.eName(et), srt: ArrS(SInt, ArrS(SInt, es)), ref: SlcBase(s)}}, true, pos)
+	f.frameCheckCall(st, r, shortKey(funcKey(fn)), []modLoc{{comp: f.eName(et), srt: ArrS(SInt, ArrS(SInt, es)), ref: SlcBase(s)}}, true, pos)
 	f.permuteSlice(st, s, es, et)
 	return TupleVal{}
 }
@@ -285,7 +285,7 @@ func (f *Frame) confinedExtern(st *State, r *Term, fn *ssa.Function, args []Val,
 		}
 	}
 	if len(locs) > 0 {
-		f.frameCheckCall(r, shortKey(funcKey(fn)), locs, true, token.NoPos)
+		f.frameCheckCall(st, r, shortKey(funcKey(fn)), locs, true, token.NoPos)
 		comps := map[string]Sort{}
 		for _, l := range locs {
 			comps[l.comp] = l.srt
